@@ -1,5 +1,6 @@
 import Pycoin.Driver.Core
 import Pycoin.DriverLib.TxText
+import Pycoin.DriverLib.History
 import Pycoin.Model.Tx
 import Pycoin.Model.Spendable
 import Pycoin.Spec.Wire
@@ -139,6 +140,7 @@ def handle : Handler := fun op args =>
     match Spendable.fromDict (← parseDict? d) with
     | .ok s => some ("ok " ++ showSp s)
     | .error e => some (errS e)
+  | "tx_hist", [c, tx, steps] => histOp c tx steps
   | _, _ => none
 
 end Pycoin.Driver.C07
